@@ -198,10 +198,9 @@ fn translate_head(
             ),
             Some(v) => Ok(Rc::new(v.with_loc(l.clone()))),
         },
-        SExp::Integer(l, i) => match prim_map.get(&u8_from_number(i.clone())) {
-            None => Ok(sexp.clone()),
-            Some(v) => Ok(Rc::new(v.with_loc(l.clone()))),
-        },
+        // A number in head position is an opcode already.  Looking its byte up
+        // as an operator name turned 61 (%) into = and 62 (keccak256) into >.
+        SExp::Integer(_, _) => Ok(sexp.clone()),
         SExp::Cons(_l, _a, nil) => match nil.borrow() {
             SExp::Nil(_l1) => run(
                 allocator,
